@@ -211,15 +211,45 @@ func isCommaOrSpace(c rune) bool {
 }
 
 func discard(reader io.Reader) error {
+	_, err := drain(reader)
+	return err
+}
+
+// drain reads and throws away what is left of the reader, and reports whether
+// that got it to the end of the stream. We don't want to get stuck throwing
+// data away forever, so there's a limit to how much we're willing to read.
+//
+// Whether the end was reached depends on the bytes alone, not on how the
+// transport delivers them: a reader that hands out its last bytes together
+// with io.EOF and one that reports io.EOF on a separate read are drained
+// alike. So when the budget is used up exactly, one more read settles whether
+// anything is left.
+func drain(reader io.Reader) (bool, error) {
 	if lr, ok := reader.(*io.LimitedReader); ok {
 		_, err := io.Copy(io.Discard, lr)
-		return err
+		return err == nil, err
 	}
-	// We don't want to get stuck throwing data away forever, so limit how much
-	// we're willing to do here.
-	lr := &io.LimitedReader{R: reader, N: discardLimit}
-	_, err := io.Copy(io.Discard, lr)
-	return err
+	return drainUpTo(reader, discardLimit)
+}
+
+func drainUpTo(reader io.Reader, limit int64) (bool, error) {
+	lr := &io.LimitedReader{R: reader, N: limit}
+	if _, err := io.Copy(io.Discard, lr); err != nil {
+		return false, err
+	}
+	if lr.N > 0 {
+		return true, nil
+	}
+	// The budget is used up. One more byte settles whether anything is left:
+	// io.Copy returns nil with nothing copied exactly when the reader is at its
+	// end.
+	n, err := io.Copy(io.Discard, io.LimitReader(reader, 1))
+	if n > 0 {
+		// More than we're willing to read - even if this happened to be the last
+		// byte.
+		return false, nil
+	}
+	return err == nil, err
 }
 
 func validateRequestURL(uri string) *Error {
